@@ -215,6 +215,11 @@ func sliceInRange(T *Terms, b *ssa.BasicBlock, x *ssa.Slice) (bool, string) {
 // established it, or if every value stored into the asserted location (struct member, one call level of context) has
 // that dynamic type.
 func assertDischarged(p *Prog, T *Terms, x *ssa.TypeAssert) (bool, string) {
+	// x.(I) with I the operand's own interface type: how a method value of an interface (`set := conn.SetDeadline`) is
+	// evaluated - it fails only for a nil interface, exactly as the method call itself would
+	if _, isIface := x.AssertedType.Underlying().(*types.Interface); isIface && types.Identical(x.AssertedType, x.X.Type()) {
+		return true, "assertion to the operand's own interface type (evaluation of a method value): fails only where calling the method would"
+	}
 	// asserted operand is a load of a struct member: look at all stores to that member in the package
 	if ld, ok := x.X.(*ssa.UnOp); ok && ld.Op == token.MUL {
 		if fa, ok := ld.X.(*ssa.FieldAddr); ok {
